@@ -86,7 +86,7 @@ static inline _Bool req_ok(const struct BusRequest* r) {
 
 /* ---- invariant of the handler state; before_send: the variant that holds before handleSend (= after handleReceive), which
    additionally allows "ready with a current request" (SYN during an own telegram while the lock counter is > 0; cleaned up by handleSend) ---- */
-#define INV_PARTS 7
+#define INV_PARTS 8
 static inline _Bool inv_part(const DPH* h, int part, _Bool before_send) {
   switch (part) {
   case 0:
@@ -109,6 +109,9 @@ static inline _Bool inv_part(const DPH* h, int part, _Bool before_send) {
   case 5:
     if (h->m_state == bs_ready || h->m_state == bs_skip) return h->m_command.m_data.n == 0 && h->m_response.m_data.n == 0 && h->m_nextSendPos == 0 && !h->m_currentAnswering;
     return 1;
+  case 7:
+    /* the device only has an arbitration pending (own address to be written after the next SYN) while a request is waiting for it */
+    return !h->m_device->arbitrating || g_q_head != NULL;
   default:
     if ((h->m_state == bs_sendCmd || h->m_state == bs_sendCmdCrc || h->m_state == bs_sendResAck) && h->m_currentRequest == NULL) return 0;
     if (ANSWER_STATE(h->m_state) && h->m_state != bs_recvResAck && !h->m_currentAnswering) return 0;
@@ -119,7 +122,7 @@ static inline _Bool inv_part(const DPH* h, int part, _Bool before_send) {
 }
 static inline _Bool inv(const DPH* h, _Bool before_send) {
   return inv_part(h, 0, before_send) && inv_part(h, 1, before_send) && inv_part(h, 2, before_send) && inv_part(h, 3, before_send)
-      && inv_part(h, 4, before_send) && inv_part(h, 5, before_send) && inv_part(h, 6, before_send);
+      && inv_part(h, 4, before_send) && inv_part(h, 5, before_send) && inv_part(h, 6, before_send) && inv_part(h, 7, before_send);
 }
 #define ASSERT_INV(h, bs) \
   __CPROVER_assert(inv_part(h, 0, bs), "[C01,C02] invariant: buffer kinds and sizes, enum ranges, escape value"); \
@@ -128,7 +131,8 @@ static inline _Bool inv(const DPH* h, _Bool before_send) {
   __CPROVER_assert(inv_part(h, 3, bs), "[C04] invariant: the head of the queue is a queued, well-formed request"); \
   __CPROVER_assert(inv_part(h, 4, bs), "[C03] invariant: no request and no own transfer in read-only mode"); \
   __CPROVER_assert(inv_part(h, 5, bs), "[C01] invariant: buffers are empty in ready/skip"); \
-  __CPROVER_assert(inv_part(h, 6, bs), "[C02,C15] invariant: sending states have a request / an answer")
+  __CPROVER_assert(inv_part(h, 6, bs), "[C02,C15] invariant: sending states have a request / an answer"); \
+  __CPROVER_assert(inv_part(h, 7, bs), "[C03] invariant: an arbitration is pending in the device only while a request is queued for it")
 
 /* states in which handleSend puts a symbol on the bus (so the following handleReceive sees it in flight) */
 #define MUST_SEND(h) (!(h)->m_config.readOnly && ((h)->m_state == bs_sendCmd || (h)->m_state == bs_sendCmdCrc || (h)->m_state == bs_sendResAck || (h)->m_state == bs_sendCmdAck || (h)->m_state == bs_sendRes || (h)->m_state == bs_sendResCrc || (h)->m_state == bs_sendSyn))
